@@ -47,7 +47,12 @@ Scenarios ==
   {[label |-> Features[k].label, mode |-> m, rules |-> Features[k].f \o Features[k].obs] :
       k \in DOMAIN Features, m \in {"exhaust", "stop"}} \cup
   {[label |-> Features[k].label \o "-suspended", mode |-> m, rules |-> Suspend1(Features[k].f) \o Features[k].obs] :
-      k \in DOMAIN Features, m \in {"exhaust", "stop"}}
+      k \in DOMAIN Features, m \in {"exhaust", "stop"}} \cup
+  \* a suspended bulk directive (written first, with another format) has no effect at all
+  {[label |-> Features[k].label \o "-after-suspended-" \o c, mode |-> m,
+    rules |-> <<Rule("config", 0, "config", c, "hex", TRUE)>> \o Features[k].f \o Features[k].obs] :
+      k \in {i \in DOMAIN Features : Features[i].label \in {"absolute-show", "relative-get", "onvalid-show", "absolute-set"}},
+      c \in ConfigParam, m \in {"exhaust", "stop"}}
 
 ASSUME ParsePrint
 ASSUME ShortFormsDefault
